@@ -49,7 +49,7 @@ type lmOp struct {
 	Types  int    `json:"types,omitempty"`
 	Strict bool   `json:"strict,omitempty"`
 	Prio   int    `json:"prio,omitempty"`
-	Offer  int    `json:"offer,omitempty"` // commit: index of the op that produced the offer
+	Offer  int    `json:"offer"`           // commit: index of the op that produced the offer
 	Nodes  uint64 `json:"nodes,omitempty"` // realloc
 	// twin only: the request object is created at op index Born (>=0) and used here
 	Born int `json:"born,omitempty"`
@@ -62,24 +62,26 @@ type lmGen struct {
 }
 
 type lmScenario struct {
-	Name   string   `json:"name"`
-	Nodes  []lmNode `json:"nodes"`
-	Ops    []lmOp   `json:"ops,omitempty"`
-	Gen    *lmGen   `json:"gen,omitempty"`
-	NoTwin bool     `json:"notwin,omitempty"`
+	Name     string   `json:"name"`
+	Nodes    []lmNode `json:"nodes"`
+	Ops      []lmOp   `json:"ops,omitempty"`
+	Gen      *lmGen   `json:"gen,omitempty"`
+	NoTwin   bool     `json:"notwin,omitempty"`
+	Twin     string   `json:"twin,omitempty"` // offers | all | coin (default coin)
+	TwinSeed int64    `json:"twin_seed,omitempty"`
 }
 
 type lmReqInfo struct {
-	ID    int   `json:"id"`
-	Types int   `json:"types"`
+	ID    int    `json:"id"`
+	Types int    `json:"types"`
 	Zone  uint64 `json:"zone"`
-	Size  int64 `json:"size"`
-	Prio  int   `json:"prio"`
+	Size  int64  `json:"size"`
+	Prio  int    `json:"prio"`
 }
 
 type lmStep struct {
-	I        int         `json:"i"`   // index in the history this step belongs to
-	Op       lmOp        `json:"op"`  // the operation as executed
+	I        int         `json:"i"`  // index in the history this step belongs to
+	Op       lmOp        `json:"op"` // the operation as executed
 	OK       bool        `json:"ok"`
 	Skipped  string      `json:"skipped,omitempty"`
 	ErrKind  string      `json:"errkind,omitempty"`
@@ -380,28 +382,35 @@ func (g *lmGenState) pickSize(aff uint64) int64 {
 	a := g.run.a
 	free := a.ZoneFree(NodeMask(aff))
 	capa := a.ZoneCapacity(NodeMask(aff))
-	total := a.ZoneCapacity(a.Masks().AvailableNodes())
+	all := a.Masks().AvailableNodes()
+	total, tf := a.ZoneCapacity(all), a.ZoneFree(all)
+	if free < 0 {
+		free = 0
+	}
 	x := g.rng.Intn(100)
 	var s int64
 	switch {
-	case x < 4:
+	case x < 3:
 		s = 0
-	case x < 20:
-		s = free/4 + 1
-	case x < 35:
-		s = free / 2
-	case x < 45:
-		s = free
-	case x < 62:
-		s = free + 1 + int64(g.rng.Intn(3))
-	case x < 72:
-		s = free + capa/2
-	case x < 80:
-		s = capa
+	case x < 45: // more than the affinity zone has, but the machine could hold it: overcommit resolution
+		room := tf - free
+		if room > capa {
+			room = capa
+		}
+		if room < 1 {
+			room = 1
+		}
+		s = free + 1 + int64(g.rng.Intn(int(room)))
+	case x < 80: // fits the affinity zone
+		if free > 0 {
+			s = 1 + int64(g.rng.Intn(int(free)))
+		} else {
+			s = 1
+		}
 	case x < 86:
-		s = capa + 1
+		s = capa
 	case x < 90:
-		s = total / 2
+		s = tf + 1 + int64(g.rng.Intn(3))
 	case x < 92:
 		s = total + 1
 	default:
@@ -443,8 +452,13 @@ func (g *lmGenState) anyLive() int {
 }
 
 func (g *lmGenState) next(i int) lmOp {
+	all := g.run.a.Masks().AvailableNodes()
+	full := g.run.a.ZoneFree(all)*4 < g.run.a.ZoneCapacity(all)
 	for {
 		x := g.rng.Intn(100)
+		if full && len(g.live) > 0 && g.rng.Intn(100) < 40 {
+			x = 99
+		}
 		switch {
 		case x < 34:
 			return g.newReqOp("alloc")
@@ -515,12 +529,29 @@ func (g *lmGenState) after(i int, op lmOp, st *lmStep) {
 
 // ---------------------------------------------------------------- twin
 
-// lmTwin derives the twin history: failed ops and offers that are never successfully committed
-// are erased; an offer that is committed while still fresh becomes "create the request at the
-// offer's position, Allocate it at the commit's position".  The twin is cut at the first commit of
-// an offer that was not fresh (the original run is then expected to have refused it).
-func lmTwin(ops []lmOp, steps []lmStep) (twin []lmOp, tmap []int, cut int) {
+// lmTwin derives the twin history.  No-op operations of the original run (operations that failed,
+// offers that were never successfully committed) are erased according to mode:
+//
+//	"offers": uncommitted offers and refused commits are erased, other failed ops are kept
+//	"all":    every no-op operation is erased
+//	"coin":   each no-op operation is erased with probability 1/2 (seeded)
+//
+// Kept no-op operations are expected to behave exactly as in the original run.  An offer that is
+// committed while still fresh becomes "create the request at the offer's position, Allocate it at
+// the commit's position".  The twin is cut at the first successful commit of an offer that was
+// not fresh (the original run is then expected to have refused it).
+func lmTwin(ops []lmOp, steps []lmStep, mode string, seed int64) (twin []lmOp, tmap []int, cut int) {
 	cut = -1
+	rng := rand.New(rand.NewSource(seed))
+	erase := func(kind string) bool {
+		switch mode {
+		case "all":
+			return true
+		case "coin":
+			return rng.Intn(2) == 0
+		}
+		return kind == "offer" || kind == "commit"
+	}
 	committedAt := map[int]int{}
 	for i, op := range ops {
 		if op.Op == "commit" && steps[i].OK {
@@ -529,9 +560,20 @@ func lmTwin(ops []lmOp, steps []lmStep) (twin []lmOp, tmap []int, cut int) {
 	}
 	changes := 0
 	offerChanges := map[int]int{}
+	keptOffer := map[int]bool{}
 	for i, op := range ops {
 		st := steps[i]
+		if st.Skipped != "" {
+			continue
+		}
 		if !st.OK {
+			if op.Op == "commit" && !keptOffer[op.Offer] {
+				continue
+			}
+			if !erase(op.Op) {
+				twin = append(twin, op)
+				tmap = append(tmap, i)
+			}
 			continue
 		}
 		switch op.Op {
@@ -542,6 +584,10 @@ func lmTwin(ops []lmOp, steps []lmStep) (twin []lmOp, tmap []int, cut int) {
 				b.Op = "born"
 				twin = append(twin, b)
 				tmap = append(tmap, i)
+			} else if !erase("offer") {
+				keptOffer[i] = true
+				twin = append(twin, op)
+				tmap = append(tmap, i)
 			}
 		case "commit":
 			if offerChanges[op.Offer] != changes {
@@ -550,7 +596,6 @@ func lmTwin(ops []lmOp, steps []lmStep) (twin []lmOp, tmap []int, cut int) {
 			}
 			o := ops[op.Offer]
 			o.Op = "alloc"
-			o.Born = len(tmap) // placeholder, fixed below
 			for k := range tmap {
 				if tmap[k] == op.Offer {
 					o.Born = k + 1
@@ -603,7 +648,15 @@ func lmRunScenario(sc *lmScenario) (res lmResult) {
 	if sc.NoTwin {
 		return
 	}
-	twin, tmap, cut := lmTwin(ops, run.steps)
+	mode := sc.Twin
+	if mode == "" {
+		mode = "coin"
+	}
+	tseed := sc.TwinSeed
+	if sc.Gen != nil {
+		tseed += sc.Gen.Seed
+	}
+	twin, tmap, cut := lmTwin(ops, run.steps, mode, tseed+int64(len(ops)))
 	res.TwinOps, res.TwinMap, res.TwinCut = twin, tmap, cut
 	trun, err := lmNewRun(sc)
 	if err != nil {
